@@ -17,6 +17,8 @@ def mk_mib(salt=0):
 OPDEFS = {
     "get": lambda c: c.get(OID(oidstr(conc([3, 1, 0])))),
     "get2": lambda c: c.get(OID(oidstr(conc([3, 2, 0])))),
+    "get3": lambda c: c.get(OID(oidstr(conc([1, 1, 1])))),          # the very OID the walks over [1] / [1,1] continue from (GET vs GETNEXT of the same name)
+    "next3": lambda c: c.getnext(OID(oidstr(conc([1, 1, 1])))),
     "mget": lambda c: c.multiget([OID(oidstr(conc([1, 1, 1]))), OID(oidstr(conc([2, 1, 2])))]),
     "set": lambda c: c.set(OID(oidstr(conc([9, 9, 0]))), OctetString(b"written")),
     "set2": lambda c: c.set(OID(oidstr(conc([9, 8, 0]))), Integer(5)),
@@ -83,10 +85,21 @@ async def run_schedule(sc):
     agents = {}
     clients = []
     gate = Gate(agents, events, clock)
-    for i in range(nclients):
+    from puresnmp import Client
+    if sc.get("same_agent"):
+        # several clients (different users, different pass-phrases, same hash) talk to ONE agent = one engine id
+        from puresnmp import V3, Auth, Priv
+        h = "sha1" if proto.endswith("sha") else "md5"
+        people = [User(b"alice", (h, b"alice-auth-pw"), ("verifstream", b"alice-priv-pw")), User(b"bob", (h, b"bob-auth-pw-other"), ("verifstream", b"bob-priv-pw")),
+                  User(b"carol", (h, b"carol-auth"), None)]
+        ip = "192.0.2.1"
+        agents[ip] = Agent(mk_mib(0), users=people, engine=b"\x80\x00\x1f\x88\x80engine0", boots=3, clock=lambda: clock[0])
+        for i in range(nclients):
+            u = people[i % len(people)]
+            clients.append(Client(ip, V3(u.name.decode(), Auth(u.auth[1], u.auth[0]), Priv(u.priv[1], u.priv[0]) if u.priv else None), sender=gate.sender))
+    for i in range(nclients if not sc.get("same_agent") else 0):
         ip = "192.0.2.%d" % (i + 1)
         agents[ip] = make_agent(mk_mib(i), proto, engine=b"\x80\x00\x1f\x88\x80engine%d" % i, boots=3 + i, clock=lambda: clock[0])
-        from puresnmp import Client
         clients.append(Client(ip, creds_for(proto), sender=gate.sender))
     import puresnmp.api.raw, puresnmp_plugins.security.usm  # noqa
     _clk = patched_clock(lambda: clock[0])
@@ -135,19 +148,19 @@ async def run_schedule(sc):
     return events
 
 
-def solo_results(proto, ops, clients):
+def solo_results(proto, ops, clients, same_agent=False):
     out = {}
     for name, ci in ops:
         key = "%s@%d" % (name, ci)
-        ev = asyncio.run(run_schedule(dict(proto=proto, ops=[[name, ci]], order=[], clients=clients)))
+        ev = asyncio.run(run_schedule(dict(proto=proto, ops=[[name, ci]], order=[], clients=clients, same_agent=same_agent)))
         out[key] = [e for e in ev if e["e"] == "ret"][0]
     return out
 
 
-def exchanges(proto, ops, clients):
+def exchanges(proto, ops, clients, same_agent=False):
     """number of requests each operation makes when alone (incl. discovery)"""
     out = {}
     for name, ci in ops:
-        ev = asyncio.run(run_schedule(dict(proto=proto, ops=[[name, ci]], order=[], clients=clients)))
+        ev = asyncio.run(run_schedule(dict(proto=proto, ops=[[name, ci]], order=[], clients=clients, same_agent=same_agent)))
         out["%s@%d" % (name, ci)] = sum(1 for e in ev if e["e"] == "park")
     return out
